@@ -37,6 +37,11 @@ type (
 		File string
 		Line int
 		Text string
+
+		// imports is the chain of files and snippets through which this
+		// token was imported (newline-separated, so that Token stays
+		// comparable); used to detect import cycles.
+		imports string
 	}
 )
 
